@@ -116,7 +116,7 @@ fn scenario(name: &str, n: i64) {
     BASE.with(|b| b.set(&marker as *const u8 as usize));
     let (kind, what) = name.split_once('-').unwrap_or((name, "drop"));
     match what {
-        "drop" | "clear" | "partial" | "full" | "fullback" | "query" => {
+        "drop" | "clear" | "partial" | "full" | "fullback" | "query" | "remove" | "adaptors" => {
             let mut t = SplayTree::new(cmp_key);
             for k in order(kind, n) {
                 t.insert(Key(k), ());
@@ -138,6 +138,35 @@ fn scenario(name: &str, n: i64) {
                     it.next();
                     reset_order();
                     drop(it);
+                }
+                "remove" => {
+                    // removals at both ends and in the middle of an un-rebalanced tree (seed C18-5)
+                    let before = t.len();
+                    let mut removed = 0usize;
+                    for k in [n - 1, n - 2, 0, 1, n / 2, n / 2 + 1, n - 3, 2] {
+                        if k >= 0 && k < n && t.remove(&Key(k)).is_some() {
+                            removed += 1;
+                        }
+                    }
+                    assert_eq!(t.len() + removed, before);
+                    assert!(!t.contains(&Key(n - 1)) || n < 1);
+                }
+                "adaptors" => {
+                    // the iterator adaptors std builds on `fold` / `try_fold` (seed C18-6)
+                    let len = t.len();
+                    let mut t2 = SplayTree::new(cmp_key);
+                    for k in order(kind, n.min(400_000)) {
+                        t2.insert(Key(k), ());
+                    }
+                    let len2 = t2.len();
+                    assert_eq!(t.into_iter().count(), len);
+                    let mut acc = 0i64;
+                    t2.into_iter().for_each(|(k, _)| acc = acc.wrapping_add(k.0));
+                    assert!(len2 == 0 || acc >= 0);
+                    let mut s = SplaySet::new(cmp_key);
+                    s.extend(order(kind, n.min(400_000)).into_iter().map(Key));
+                    let last = s.into_iter().last();
+                    assert!(last.is_some() || n == 0);
                 }
                 "fullback" => {
                     let mut c = 0usize;
